@@ -391,7 +391,8 @@ func (r *rs) runIncrementalSync() {
 	g := cfgq.Of(c.Program, fn)
 	_, conn := param(fn, 0)
 	_, br := param(fn, 1)
-	r.boundedCaller("runIncrementalSync", fn, g, fn.Decl.Body, ioc, br)
+	_, sizeP := param(fn, 3)
+	r.boundedCaller("runIncrementalSync", fn, g, fn.Decl.Body, ioc, br, sizeP)
 	setsConn, setsBr := assignsTo(info, conn), assignsTo(info, br)
 	copies := callsTo(info, fn.Decl.Body, ppc.Obj, false)
 	isCopy := flow.CallOn(g, func(call *ast.CallExpr) bool {
